@@ -491,14 +491,17 @@ class Server(base_server.BaseServer):
         """Monitor connected clients and clean up those that time out."""
         self.service_task_event = self.create_event()
         while not self.service_task_event.is_set():
-            if len(self.sockets) == 0:
+            # (one reading of the table size: another thread can remove the
+            # last session at any moment)
+            socket_count = len(self.sockets)
+            if socket_count == 0:
                 # nothing to do
                 if self.service_task_event.wait(timeout=self.ping_timeout):
                     break
                 continue
 
             # go through the entire client list in a ping interval cycle
-            sleep_interval = float(self.ping_timeout) / len(self.sockets)
+            sleep_interval = float(self.ping_timeout) / socket_count
 
             try:
                 # iterate over the current clients
